@@ -143,7 +143,7 @@ func DropRegs(t *rapid.T, cfg *Config, pct int) []int {
 
 // CloneConfig deep-copies a configuration.
 func CloneConfig(c *Config) *Config {
-	o := &Config{Regs: make([]Reg, len(c.Regs)), PreBuild: c.PreBuild, Ghosts: append([]Ghost(nil), c.Ghosts...), BuildMode: c.BuildMode, Scribble: c.Scribble}
+	o := &Config{Regs: make([]Reg, len(c.Regs)), PreBuild: c.PreBuild, Ghosts: append([]Ghost(nil), c.Ghosts...), BuildMode: c.BuildMode, Scribble: c.Scribble, LateDuringBuild: c.LateDuringBuild, LateAt: c.LateAt}
 	for i, r := range c.Regs {
 		r.Outs = append([]OutSpec(nil), r.Outs...)
 		r.Deps = append([]DepSpec(nil), r.Deps...)
